@@ -9,6 +9,7 @@ import (
 
 	"github.com/Vedant9500/WTF/internal/constants"
 	"github.com/Vedant9500/WTF/internal/database"
+	"github.com/Vedant9500/WTF/internal/embedding"
 	"github.com/Vedant9500/WTF/internal/recovery"
 	"github.com/Vedant9500/WTF/zzverif/lib"
 )
@@ -79,6 +80,20 @@ func (s dbSpec) build(c *lib.Ctx) *database.Database {
 			c.Fail("shipped database does not load: %v", err)
 			return &database.Database{}
 		}
+		return db
+	}
+	if s.Special == "embedded" {
+		// six pool entries with an in-memory embedding index attached (overlay setter): the vocabulary lacks the
+		// word "file" but has three longer forms of it
+		db := uMustDB(c, uPick(uPool(), []int{0, 4, 5, 6, 8, 22}))
+		idx := &embedding.Index{Dimension: 3, WordVectors: map[string][]float32{
+			"compress": {1, 0, 0}, "files": {0, 1, 0}, "filed": {0.6, 0.1, 0.45}, "filer": {0.1, 0.6, 0.45}, "git": {0.7, 0.7, 0}, "list": {0.1, 0.2, 0.9}, "tar": {-1, 0, 0},
+		}}
+		rows := [][]float32{{1, 0, 0}, {0, 1, 0}, {0.7, 0.7, 0}, {0.2, 0.9, 0.1}, {0.1, 0.2, 0.9}, {0.5, 0.5, 0.5}}
+		for i := range db.Commands {
+			idx.CmdEmbeddings = append(idx.CmdEmbeddings, rows[i%len(rows)])
+		}
+		accSetEmbedding(db, idx)
 		return db
 	}
 	if s.Personal != nil {
